@@ -5,7 +5,7 @@
 (* splits, non-CGT rows and unknown actions whose free text tries to escape its comment line.   *)
 EXTENDS Schwab, TLC, Json
 
-CONSTANTS MaxRows, TextClasses
+CONSTANTS MaxRows, TextClasses, Pools
 
 Row(kind, date, qty, price, fees, amount, text, asof) ==
   [kind |-> kind, date |-> date, sym |-> "XYZ", qty |-> qty, price |-> price, fees |-> fees, amount |-> amount, text |-> text, asof |-> asof]
@@ -28,7 +28,17 @@ Alphabet ==
     Row("Journal", 1, "", "", "", "-100.00", "plain", FALSE) }
   \cup { Row("Unknown", 2, "", "", "", "", t, FALSE) : t \in TextClasses }
 
-Exports == UNION {[1..n -> Alphabet] : n \in 0..MaxRows}
+\* fixed five-row exports in EVERY row order (Pools = TRUE): two different sells, their two cancellations and a purchase --
+\* cancellations listed in the opposite order to their sells, before them, after them, with a row behind the later sell
+Pool1 == << Row("Sell", 2, "4", "8.00", "0.50", "", "plain", FALSE), Row("Sell", 3, "1", "8.00", "", "", "plain", FALSE),
+            Row("CancelSell", 3, "1", "8.00", "", "", "plain", FALSE), Row("CancelSell", 2, "4", "8.00", "", "", "plain", FALSE),
+            Row("Buy", 2, "2.5", "6", "", "", "plain", FALSE) >>
+\* one sell cancelled, its twin kept, a dividend with withholding behind them
+Pool2 == << Row("Sell", 2, "4", "8.00", "0.50", "", "plain", FALSE), Row("Sell", 2, "4", "8.00", "0.50", "", "plain", FALSE),
+            Row("CancelSell", 2, "4", "8.00", "", "", "plain", FALSE), Row("CashDividend", 2, "", "", "", "6.00", "plain", FALSE),
+            Row("NraWithholding", 2, "", "", "", "-1.50", "plain", FALSE) >>
+PermSeqs(seq) == {[ix \in 1..Len(seq) |-> seq[pm[ix]]] : pm \in {qm \in [1..Len(seq) -> 1..Len(seq)] : \A ix, jx \in 1..Len(seq) : ix # jx => qm[ix] # qm[jx]}}
+Exports == UNION {[1..n -> Alphabet] : n \in 0..MaxRows} \cup (IF Pools THEN PermSeqs(Pool1) \cup PermSeqs(Pool2) ELSE {})
 MCInit == \E rs \in Exports : SInit(rs)
 MCSpec == MCInit /\ [][SNext]_svars
 
